@@ -44,6 +44,7 @@ class Pool:
 
 
 CURRENT_TAG = [0]
+CALLS = []           # tag of every user-callback invocation made through a Table
 RAISED = []          # (tag, code) of every callback exception (codes >= 20) created during a run
 
 
@@ -114,6 +115,7 @@ def run_hot(build, inputs, dispose_at=None):
     clock = CURRENT_TAG
     clock[0] = 0
     del RAISED[:]
+    del CALLS[:]
     src = HotSource(clock)
     out, escapes = [], []
     try:
@@ -138,7 +140,7 @@ def run_hot(build, inputs, dispose_at=None):
         except Exception as e:
             escapes.append((k + 1, e))
     return {"out": out, "escapes": escapes, "sublog": src.log, "build_error": None,
-            "disposed_at": disposed_at, "n_subscriptions": len(src.observers), "raised": list(RAISED)}
+            "disposed_at": disposed_at, "n_subscriptions": len(src.observers), "raised": list(RAISED), "calls": list(CALLS)}
 
 
 def g_ev(kind, payload, enc):
@@ -209,6 +211,7 @@ class Table:
     def __call__(self, v):
         i = self.pool.id(v)
         self.calls.append(i)
+        CALLS.append(CURRENT_TAG[0])
         r = self.at(i)
         if r[0] == "raise":
             raise UserError(r[1])
